@@ -31,6 +31,27 @@ theorem table_decreasing : ∀ k, k < 29 →
     dyLt (Gen.smallerEdge2OpEdgeDistDyadic.getD (k + 1) (0, 0)) (Gen.smallerEdge2OpEdgeDistDyadic.getD k (0, 0)) = true := by
   decide +kernel
 
+/-- `2·T[k+1]·(1 + a/(b·2^k)) < T[k]` on dyadic rationals -/
+def dyHalvingLo (k a b : Nat) (t tn : Nat × Nat) : Bool :=
+  2 * tn.1 * 2 ^ t.2 * (b * 2 ^ k + a) < t.1 * 2 ^ tn.2 * (b * 2 ^ k)
+/-- `T[k] < 2·T[k+1]·(1 + a/(b·2^k))` on dyadic rationals -/
+def dyHalvingHi (k a b : Nat) (t tn : Nat × Nat) : Bool :=
+  t.1 * 2 ^ tn.2 * (b * 2 ^ k) < 2 * tn.1 * 2 ^ t.2 * (b * 2 ^ k + a)
+
+/-- **regularity of the table** (a property of the constants in the source, consumed from the regenerated term): each
+    depth halves the limit, with a relative excess `T[k] / (2·T[k+1]) − 1` between `0.04·2^-k` and `0.1·2^-k` for
+    `k = j + 2`, `2 ≤ k ≤ 25` (it is `0.0499·2^-k` to three digits from `k = 5` on), and between `0` and `2^-25` for the last three
+    depths.  A mistyped entry breaks this for any relative error above about `0.05·2^-k`. -/
+theorem table_halving :
+    (∀ j, j < 24 →
+      dyHalvingLo (j + 2) 1 25 (Gen.smallerEdge2OpEdgeDistDyadic.getD (j + 2) (0, 0)) (Gen.smallerEdge2OpEdgeDistDyadic.getD (j + 3) (0, 0)) = true ∧
+      dyHalvingHi (j + 2) 1 10 (Gen.smallerEdge2OpEdgeDistDyadic.getD (j + 2) (0, 0)) (Gen.smallerEdge2OpEdgeDistDyadic.getD (j + 3) (0, 0)) = true) ∧
+    (∀ j, j < 3 →
+      dyLt (2 * (Gen.smallerEdge2OpEdgeDistDyadic.getD (j + 27) (0, 0)).1, (Gen.smallerEdge2OpEdgeDistDyadic.getD (j + 27) (0, 0)).2)
+        (Gen.smallerEdge2OpEdgeDistDyadic.getD (j + 26) (0, 0)) = true ∧
+      dyHalvingHi 25 1 1 (Gen.smallerEdge2OpEdgeDistDyadic.getD (j + 26) (0, 0)) (Gen.smallerEdge2OpEdgeDistDyadic.getD (j + 27) (0, 0)) = true) := by
+  decide +kernel
+
 /-- the dyadic rationals are the values of the bit patterns: `(2^52 + mantissa)·2^(exponent − 1075) = num / 2^exp` -/
 theorem table_dyadic_matches_bits : ∀ k, k < 30 →
     F64.sgnF (Gen.smallerEdge2OpEdgeDistBits.getD k 0) = 0 ∧ 1 ≤ F64.expF (Gen.smallerEdge2OpEdgeDistBits.getD k 0) ∧
